@@ -868,9 +868,9 @@ func relation(stamp, expected string) string {
 		return "same"
 	case stamp == "" || expected == "":
 		return "empty"
-	case strings.ContainsAny(stamp, "*?%_"):
+	case strings.ContainsAny(stamp, "*?%"):
 		return "pattern-stamp"
-	case strings.ContainsAny(expected, "*?%_"):
+	case strings.ContainsAny(expected, "*?%"):
 		return "pattern-expected"
 	case strings.EqualFold(strings.TrimSpace(stamp), strings.TrimSpace(expected)):
 		return "case-or-space"
